@@ -15,9 +15,9 @@ Proof.
     + destruct H as (H1 & H2). rewrite H1. cbn. apply IH. exact H2.
 Qed.
 
-Lemma agree_fixed_spec_cfg c : t_iscfg c = true -> agree jfixed c = true -> spec_ok c = true.
+Lemma agree_fixed_spec_cfg c : t_barrier c = false -> t_iscfg c = true -> agree jfixed c = true -> spec_ok c = true.
 Proof.
-  intros Hk. unfold agree, spec_ok, agree_cfg, spec_cfg. rewrite Hk.
+  intros Hbar Hk. unfold agree, spec_ok, agree_cfg, spec_cfg. rewrite Hbar, Hk.
   pose proof (outcome_fixed_all (t_c c)) as G. unfold good_out in G.
   destruct (run_job jfixed (t_c c)) as [a al r t]. cbn [o_accepted o_alive o_result o_ticket] in *.
   intros H. apply andb_true_iff in H. destruct H as [Ho H]. rewrite Ho. cbn [andb].
@@ -35,9 +35,9 @@ Proof.
 Qed.
 
 Lemma agree_fixed_spec_raffle v c :
-  t_iscfg c = false -> 0 <= t_capF c -> 0 <= t_capI c -> agree v c = true -> spec_ok c = true.
+  t_barrier c = false -> t_iscfg c = false -> 0 <= t_capF c -> 0 <= t_capI c -> agree v c = true -> spec_ok c = true.
 Proof.
-  intros Hk HF HI. unfold agree, spec_ok, agree_raffle, spec_raffle. rewrite Hk.
+  intros Hbar Hk HF HI. unfold agree, spec_ok, agree_raffle, spec_raffle. rewrite Hbar, Hk.
   intros H. apply andb_true_iff in H. destruct H as [Ho H]. rewrite Ho. cbn [andb].
   repeat (apply andb_true_iff in H; destruct H as [H ?]).
   destruct (replay (ob_log c) (r_init (t_capF c) (t_capI c))) as [st|] eqn:Hrep; [|discriminate].
@@ -48,4 +48,18 @@ Proof.
   pose proof (replay_spec _ _ _ _ _ Hinv Hrep Hrun) as Hs. cbn [r_init r_running] in Hs.
   rewrite (spec_log_reflect _ _ _ _ Hs). cbn [andb].
   repeat (apply andb_true_iff; split); assumption.
+Qed.
+
+Lemma zlist_eqb_eq' l1 l2 : list_eqb Z.eqb l1 l2 = true -> l1 = l2.
+Proof. apply list_eqb_eq. intros; apply Z.eqb_eq. Qed.
+
+Lemma agree_spec_barrier v c : t_barrier c = true -> agree v c = true -> spec_ok c = true.
+Proof.
+  intros Hbar. unfold agree, spec_ok, agree_barrier, spec_barrier. rewrite Hbar.
+  intros H. apply andb_true_iff in H. destruct H as [Ho H]. rewrite Ho. cbn [andb].
+  repeat (apply andb_true_iff in H; destruct H as [H ?]).
+  apply zlist_eqb_eq' in H. rewrite H.
+  pose proof (grant_at_most_one 0 (t_reqs c) (r_init (t_capF c) (t_capI c))) as G. unfold model_granted.
+  destruct (grant_count 0 (t_reqs c) (r_init (t_capF c) (t_capI c))) as [|[|g]]; [| |lia];
+    cbn [repeat app skipn forallb andb]; repeat (apply andb_true_iff; split); assumption || reflexivity.
 Qed.
